@@ -60,6 +60,7 @@ inline void World::step(Proc &p) {
   Step st; st.vpid = p.vpid; st.op = r.op; st.a[0] = r.a[0]; st.a[1] = r.a[1]; st.a[2] = r.a[2];
   if (chosen.type == ALT_KILL) { note("pid " + std::to_string(p.vpid) + " (" + p.name + ") KILLED before " + opname(r.op)); kill_proc(p, SIGKILL); st.op = VK_KILL; st.injected = true; scn->after_step(*this, p, st); return; }
   if (chosen.type == ALT_SIGNAL) { note("signal " + std::to_string(chosen.arg) + " reaches pid " + std::to_string(p.vpid) + " (" + p.name + ") before " + opname(r.op)); raise_sig(p, chosen.arg); st.sigraised = chosen.arg; st.injected = true; scn->after_step(*this, p, st); return; }
+  if (chosen.type == ALT_EXIT) { note("pid " + std::to_string(p.vpid) + " (" + p.name + ") exits " + std::to_string(chosen.arg) + " instead of " + opname(r.op)); kill_proc(p, 0, chosen.arg); st.op = VK_EXIT; st.ret = chosen.arg; st.injected = true; scn->after_step(*this, p, st); return; }
   if (chosen.type == ALT_MACHINE_CRASH) { note("machine crash before " + opname(r.op) + " of pid " + std::to_string(p.vpid)); machine_crash(); return; }
   std::string out; long aout[6] = {0, 0, 0, 0, 0, 0}; long ret = 0; int err = 0;
   bool exited = false;
